@@ -41,6 +41,7 @@ const (
 // caseT is one input (also the replay artefact).
 type caseT struct {
 	Era    int      `json:"era"`              // 0..3 = distributeWithNormalArbitratorsV0..V3 (selected by height)
+	Normal int      `json:"normal_seats"`     // configured NormalArbitratorsCount (0 = 3); with 1 the sitting arbiters can outnumber the 2+1 configured seats
 	POW    bool     `json:"pow"`              // consensus algorithm POW (only read by V3)
 	CRC    []string `json:"crc"`              // kinds of current CRC arbiters: key | nokey | out
 	DPoS   int      `json:"dpos"`             // number of current DPoS (elected producer) arbiters
@@ -52,8 +53,15 @@ type caseT struct {
 }
 
 func (c *caseT) String() string {
-	return fmt.Sprintf("era=V%d pow=%v crc=[%s] dpos=%d cand=%d shared=%v mapped=%v votes=%v reward=%d",
-		c.Era, c.POW, strings.Join(c.CRC, ","), c.DPoS, c.Cand, c.Shared, c.Mapped, c.Votes, c.Reward)
+	return fmt.Sprintf("era=V%d seats=%d+%d pow=%v crc=[%s] dpos=%d cand=%d shared=%v mapped=%v votes=%v reward=%d",
+		c.Era, cfgCRC, c.normal(), c.POW, strings.Join(c.CRC, ","), c.DPoS, c.Cand, c.Shared, c.Mapped, c.Votes, c.Reward)
+}
+
+func (c *caseT) normal() int {
+	if c.Normal == 0 {
+		return cfgNormal
+	}
+	return c.Normal
 }
 
 type world struct {
@@ -119,7 +127,7 @@ func hashOf(k *dposkit.Key) common.Uint168 {
 
 // shapeKey identifies everything of a case except votes and reward.
 func shapeKey(c *caseT) string {
-	return fmt.Sprintf("%d|%v|%s|%d|%d|%v|%v", c.Era, c.POW, strings.Join(c.CRC, ","), c.DPoS, c.Cand, c.Shared, c.Mapped)
+	return fmt.Sprintf("%d|%d|%v|%s|%d|%d|%v|%v", c.Era, c.normal(), c.POW, strings.Join(c.CRC, ","), c.DPoS, c.Cand, c.Shared, c.Mapped)
 }
 
 // setup installs the case into the Arbiters (members are rebuilt only when the shape changes:
@@ -203,6 +211,7 @@ func (w *world) setupShape(c *caseT) {
 			take(hashOf(w.asgOwn[i]))
 		}
 	}
+	w.params.DPoSConfiguration.NormalArbitratorsCount = c.normal()
 	a.CurrentArbitrators = cur
 	a.CurrentCandidates = cand
 	a.CurrentCRCArbitersMap = crcMap
@@ -360,27 +369,29 @@ func shapes() []caseT {
 		}
 	}
 	var out []caseT
-	for era := 0; era < 4; era++ {
-		for _, pow := range []bool{false, true} {
-			if pow && era != 3 {
-				continue // only V3 reads the consensus algorithm (stated in check.json)
-			}
-			for _, crc := range crcSets {
-				hasNoKey := false
-				for _, k := range crc {
-					hasNoKey = hasNoKey || k == "nokey"
+	for _, normal := range []int{cfgNormal, 1} {
+		for era := 0; era < 4; era++ {
+			for _, pow := range []bool{false, true} {
+				if pow && era != 3 {
+					continue // only V3 reads the consensus algorithm (stated in check.json)
 				}
-				for d := 0; d <= 3; d++ {
-					for cand := 0; cand <= 2; cand++ {
-						for _, shared := range []bool{false, true} {
-							if shared && (cand == 0 || d == 0) {
-								continue
-							}
-							for _, mapped := range []bool{false, true} {
-								if mapped && !hasNoKey {
+				for _, crc := range crcSets {
+					hasNoKey := false
+					for _, k := range crc {
+						hasNoKey = hasNoKey || k == "nokey"
+					}
+					for d := 0; d <= 3; d++ {
+						for cand := 0; cand <= 2; cand++ {
+							for _, shared := range []bool{false, true} {
+								if shared && (cand == 0 || d == 0) {
 									continue
 								}
-								out = append(out, caseT{Era: era, POW: pow, CRC: crc, DPoS: d, Cand: cand, Shared: shared, Mapped: mapped})
+								for _, mapped := range []bool{false, true} {
+									if mapped && !hasNoKey {
+										continue
+									}
+									out = append(out, caseT{Era: era, Normal: normal, POW: pow, CRC: crc, DPoS: d, Cand: cand, Shared: shared, Mapped: mapped})
+								}
 							}
 						}
 					}
@@ -426,7 +437,7 @@ func main() {
 	type job struct{ shape, first int }
 	var jobs []job
 	alpha := func(base *caseT) []int64 {
-		if expensive(base) {
+		if expensive(base) || base.normal() != cfgNormal {
 			if quick {
 				return voteAlphabetSmall
 			}
@@ -499,7 +510,7 @@ func main() {
 	finish(evid.Coverage{
 		"evaluations":         ct.evals,
 		"distinct_nontrivial": ct.multi,
-		"rule":                fmt.Sprintf("every shape {era V0..V3 (by height) x [POW flag in V3] x current CRC arbiters: all sequences of length 0..2 over {elected+DPoS key, elected without DPoS key, impeached} x DPoS arbiters 0..3 x candidates 0..2 x [candidate 0 shares the owner key of DPoS arbiter 0] x [key-less CRC arbiters mapped to a producer with its own votes]} (%d shapes; configured seats: %d CRC + %d normal) x every vote vector over %v (%v quick / %v thorough for shapes with elected CRC arbiters; one entry per distinct participant) x every reward in %v. non-trivial = successful distributions with at least two positive payouts (cases are distinct by construction)", len(sh), cfgCRC, cfgNormal, voteAlphabet, voteAlphabetSmall, voteAlphabetMid, rewardAlphabet),
+		"rule":                fmt.Sprintf("every shape {era V0..V3 (by height) x [POW flag in V3] x current CRC arbiters: all sequences of length 0..2 over {elected+DPoS key, elected without DPoS key, impeached} x DPoS arbiters 0..3 x candidates 0..2 x [candidate 0 shares the owner key of DPoS arbiter 0] x [key-less CRC arbiters mapped to a producer with its own votes]} (%d shapes; configured seats: %d CRC + {%d, 1} normal — with 1 normal seat the sitting arbiters equal the configured seats or exceed them by 1 and 2) x every vote vector over %v (%v quick / %v thorough for shapes with elected CRC arbiters and for the 1-normal-seat shapes; one entry per distinct participant) x every reward in %v. non-trivial = successful distributions with at least two positive payouts (cases are distinct by construction)", len(sh), cfgCRC, cfgNormal, voteAlphabet, voteAlphabetSmall, voteAlphabetMid, rewardAlphabet),
 		"exhaustive":          true,
 		"shapes":              len(sh),
 		"succeeded":           ct.ok,
